@@ -218,6 +218,7 @@ func TestVerif_C30(t *testing.T) {
 	}
 	vfC30Rotation(rec, pki)
 	vfC30Relisten(rec, pki)
+	vfC30TLSOnlyUpdate(rec, pki)
 }
 
 func vfC30Start(tc *TLSConfig) (*AbsfsNFS, *Server, error) {
@@ -451,4 +452,86 @@ func vfC30RotationScenario(rec *evid.Rec, pki *vfPKI, fetched, btw string) {
 		rec.Distinct(fmt.Sprintf("rotation|%s|round=%d|reloaded-served=%v", name, round+1, int64(serial) == w.serial))
 	}
 	rec.Sample(map[string]any{"rotation": name + ": serial 100 -> files overwritten (200) -> ReloadCertificates -> handshake -> files overwritten (100) -> ReloadCertificates -> handshake"})
+}
+
+// vfC30TLSOnlyUpdate: TLS is on without client verification; a runtime update changes nothing but
+// the TLS settings (client certificates now required, verified against CA1); the listener is then
+// restarted on the same AbsfsNFS. If the update call reported success, the new requirement is in
+// force: a client without a certificate, or with one from another CA, is not served, and
+// GetExportOptions reports what was set.
+func vfC30TLSOnlyUpdate(rec *evid.Rec, pki *vfPKI) {
+	for _, via := range []string{"UpdateExportOptions", "UpdatePolicyOptions"} {
+		fs := refs.New()
+		base := &TLSConfig{Enabled: true, CertFile: pki.srvCert, KeyFile: pki.srvKey, MinVersion: tls.VersionTLS12, MaxVersion: tls.VersionTLS13}
+		n, err := New(fs, ExportOptions{TLS: base})
+		if err != nil {
+			rec.Infra("tls-only-update setup: " + err.Error())
+			return
+		}
+		vfQuiet(n)
+		start := func() *Server {
+			s, err := NewServer(ServerOptions{Hostname: "127.0.0.1", UseRecordMarking: true})
+			if err != nil {
+				return nil
+			}
+			s.logger.SetOutput(io.Discard)
+			s.SetHandler(n)
+			if err := s.Listen(); err != nil {
+				return nil
+			}
+			return s
+		}
+		s1 := start()
+		if s1 == nil {
+			rec.Inconclusive(1)
+			n.Close()
+			continue
+		}
+		open1, _, _, _ := vfTLSNull(s1.GetPort(), pki.roots, tls.VersionTLS12, tls.VersionTLS13, nil, true)
+		s1.Stop()
+		if !open1 {
+			rec.Distinct("tls-only-update|" + via + "|first-listener-unexpected")
+			n.Close()
+			continue
+		}
+		strict := &TLSConfig{Enabled: true, CertFile: pki.srvCert, KeyFile: pki.srvKey, CAFile: pki.ca1File, ClientAuth: tls.RequireAndVerifyClientCert, MinVersion: tls.VersionTLS12, MaxVersion: tls.VersionTLS13}
+		var uerr error
+		if via == "UpdateExportOptions" {
+			o := n.GetExportOptions()
+			o.TLS = strict
+			uerr = n.UpdateExportOptions(o)
+		} else {
+			p := *n.policy.Load()
+			p.TLS = strict
+			uerr = n.UpdatePolicyOptions(p)
+		}
+		if uerr != nil {
+			// refused as a whole: nothing to demand of the new listener
+			rec.Distinct("tls-only-update|" + via + "|update-refused")
+			n.Close()
+			continue
+		}
+		s2 := start()
+		if s2 == nil {
+			rec.Inconclusive(1)
+			n.Close()
+			continue
+		}
+		rec.Eval(3)
+		noCert, _, _, _ := vfTLSNull(s2.GetPort(), pki.roots, tls.VersionTLS12, tls.VersionTLS13, nil, true)
+		otherCA, _, _, _ := vfTLSNull(s2.GetPort(), pki.roots, tls.VersionTLS12, tls.VersionTLS13, &pki.clientCA2, true)
+		rightCA, _, _, rerr := vfTLSNull(s2.GetPort(), pki.roots, tls.VersionTLS12, tls.VersionTLS13, &pki.clientCA1, true)
+		if noCert || otherCA {
+			rec.Violate("C30/client-without-ca-signed-certificate-served/after-a-runtime-update-of-the-tls-settings-only/"+via, fmt.Sprintf("%s (accepted) changed only the TLS settings to RequireAndVerifyClientCert with CA1; the listener was restarted: client without certificate served: %v, client of CA2 served: %v", via, noCert, otherCA), nil)
+		}
+		if !rightCA {
+			rec.Violate("C30/client-of-the-configured-ca-refused/after-a-runtime-update-of-the-tls-settings-only/"+via, fmt.Sprintf("a client of CA1 is refused: %v", rerr), nil)
+		}
+		if got := n.GetExportOptions().TLS; got == nil || got.ClientAuth != tls.RequireAndVerifyClientCert {
+			rec.Violate("C30/accepted-tls-update-not-reported/"+via, fmt.Sprintf("GetExportOptions().TLS after the accepted update: %+v", got), nil)
+		}
+		rec.Distinct(fmt.Sprintf("tls-only-update|%s|no-cert=%v|other-ca=%v|right-ca=%v", via, noCert, otherCA, rightCA))
+		s2.Stop()
+		n.Close()
+	}
 }
